@@ -348,6 +348,9 @@ func (ctx *Ctx) Reset() {
 func (ctx *Ctx) get(path []byte) any {
 	// Reset error to avoid catching errors from previous nodes.
 	ctx.Err = nil
+	// Callers read the result from bufX as well: a variable that is not found must not leave the
+	// value of an earlier lookup there.
+	ctx.bufX = nil
 
 	// Special case: check square brackets on counter loops.
 	// See Ctx.replaceQB().
